@@ -2,6 +2,8 @@
 read_nonblocking records what was returned (the chunk sequence the matching
 engine saw).  Children come from the world's child_setup / popen_setup.
 """
+import weakref
+
 import pexpect
 import pexpect.fdpexpect
 import pexpect.popen_spawn
@@ -64,7 +66,7 @@ class SimPtyProcess(pp.PtyProcess):
         self.flag_eof = False
         self.delayafterclose = 0.1
         self.delayafterterminate = 0.1
-        shim.W.ptyprocs.append(self)
+        shim.W.ptyprocs.append(weakref.ref(self))
 
 
 def default_child_setup(world, actor_factory, pty_kw=None, proc_kw=None):
